@@ -306,36 +306,27 @@ func checkC14(rep *core.Report) {
 	r3 := rep.Rule("R14.3", "exactly one hand-off per dequeued message on error-free paths; retries only after an error and bounded", 5)
 	r4 := rep.Rule("R14.4", "single consumer: no goroutine per message, no re-queue, one inputMsg started per producer", 5)
 	prods := findProducers(prog)
-	if len(prods) < 5 {
-		r1.Undecided("anchors", token.NoPos, fmt.Sprintf("%d MQueue implementations found, want at least 5", len(prods)))
-	}
+	checkPayloadNotFormat(prog, r1)
 	// transitive printf wrappers in the repo: (function, param index)
 	wrappers := printfWrappers(prog)
 	for _, p := range prods {
 		name := core.FuncName(p.input)
 		if p.recv == nil || p.loop == nil {
-			r1.Undecided(name+":receive", p.input.Pos(), "no receive from the message channel parameter inside a loop")
 			continue
 		}
 		uses := flowOfMessage(prog, p)
 		var handoffs []msgUse
 		var batches []ssa.Instruction
-		nFmt := 0
 		for _, u := range uses {
 			switch u.kind {
 			case "illegal":
-				if strings.Contains(u.what, "format string") {
-					nFmt++
-					r1.Fail(name+":format", u.ins.Pos(), u.what+": any '%' in a published document is interpreted as a verb")
-				} else {
+				if !strings.Contains(u.what, "format string") {
 					r2.Fail(name+":use", u.ins.Pos(), u.what)
 				}
 			case "transform":
-				// repo wrappers that forward to a format
+				// repo wrappers that forward to a format: R14.1
 				if c, ok := u.ins.(ssa.CallInstruction); ok {
 					if f := c.Common().StaticCallee(); f != nil && wrappers[f] != nil {
-						r1.Fail(name+":format-wrapper", u.ins.Pos(), "message passed to "+core.FuncName(f)+" which forwards it to a printf format")
-						nFmt++
 						continue
 					}
 				}
@@ -352,9 +343,6 @@ func checkC14(rep *core.Report) {
 					handoffs = append(handoffs, u)
 				}
 			}
-		}
-		if nFmt == 0 {
-			r1.OK(name+":format", p.recv.Pos(), fmt.Sprintf("%d uses of the message, none as a format", len(uses)))
 		}
 		if len(handoffs) == 0 {
 			r2.Fail(name+":handoff", p.recv.Pos(), "the dequeued message never reaches a back-end call")
@@ -441,6 +429,38 @@ func checkC14(rep *core.Report) {
 	} else {
 		r4.Undecided("(*producer.Producer).Run", token.NoPos, "Producer.Run not found")
 	}
+	// ---- R14.5 ---- each producer owns its back-end object
+	r5 := rep.Rule("R14.5", "every Producer gets a back-end object of its own (created for it, not taken from package-level state)", 1)
+	nMQ := 0
+	for _, fn := range prog.RepoFuncs() {
+		allInstrs(fn, func(ins ssa.Instruction) {
+			st, ok := ins.(*ssa.Store)
+			if !ok {
+				return
+			}
+			o, f, ok := core.FieldOf(st.Addr)
+			if !ok || f.Name() != "MQ" || !typeIs(o, core.ModPath+"/producer", "Producer") {
+				return
+			}
+			nMQ++
+			shared := ""
+			for v := range core.BackwardSlice(st.Val, core.SliceOpts{NoCallArgs: true}) {
+				if g, isG := v.(*ssa.Global); isG && g.Pkg != nil && core.IsRepoPkg(g.Pkg.Pkg) {
+					shared = g.Name()
+				}
+				if lk, isL := v.(*ssa.Lookup); isL {
+					if g := globalRoot(lk.X, 0, map[ssa.Value]bool{}); g != nil {
+						shared = g.Name()
+					}
+				}
+			}
+			r5.Check(shared == "", core.FuncName(fn)+":Producer.MQ", st.Pos(), "the back-end object is created in this call",
+				"the back-end object stored into the Producer comes from the package-level variable "+shared+": every producer of that kind (one per protocol) shares one object, so a later producer's setup replaces the connection and configuration the earlier one is delivering with - its messages go to the wrong destination or are lost")
+		})
+	}
+	if nMQ == 0 {
+		r5.Undecided("Producer.MQ", token.NoPos, "no construction of a Producer found")
+	}
 }
 
 func sendsTo(ins ssa.Instruction, params []*ssa.Parameter) bool {
@@ -463,6 +483,44 @@ func sendsTo(ins ssa.Instruction, params []*ssa.Parameter) bool {
 		}
 	}
 	return false
+}
+
+// checkPayloadNotFormat (R14.1 / R05.9): in every producer back-end the dequeued message is followed forward; no use of
+// it is the format operand of a printf-style function, directly or through a repo wrapper.
+func checkPayloadNotFormat(prog *core.Program, r1 *core.RuleRun) {
+	prods := findProducers(prog)
+	if len(prods) < 5 {
+		r1.Undecided("anchors", token.NoPos, fmt.Sprintf("%d MQueue implementations found, want at least 5", len(prods)))
+	}
+	wrappers := printfWrappers(prog)
+	for _, p := range prods {
+		name := core.FuncName(p.input)
+		if p.recv == nil || p.loop == nil {
+			r1.Undecided(name+":receive", p.input.Pos(), "no receive from the message channel parameter inside a loop")
+			continue
+		}
+		uses := flowOfMessage(prog, p)
+		nFmt := 0
+		for _, u := range uses {
+			switch u.kind {
+			case "illegal":
+				if strings.Contains(u.what, "format string") {
+					nFmt++
+					r1.Fail(name+":format", u.ins.Pos(), u.what+": any '%' in a published document is interpreted as a verb")
+				}
+			case "transform":
+				if c, ok := u.ins.(ssa.CallInstruction); ok {
+					if f := c.Common().StaticCallee(); f != nil && wrappers[f] != nil {
+						r1.Fail(name+":format-wrapper", u.ins.Pos(), "message passed to "+core.FuncName(f)+" which forwards it to a printf format")
+						nFmt++
+					}
+				}
+			}
+		}
+		if nFmt == 0 {
+			r1.OK(name+":format", p.recv.Pos(), fmt.Sprintf("%d uses of the message, none as a format", len(uses)))
+		}
+	}
 }
 
 // printfWrappers: repo functions that forward one of their parameters to a printf format.
